@@ -27,6 +27,7 @@ CONSTANTS Keys, Native, MirrorDropsEmpty, AppVals,
           StartStates,    \* subset of {"empty", "data", "ownsnap", "data+ownsnap"}
           OtherAtStart,   \* subset of BOOLEAN: may another instance's snapshot lie in the bucket when the instance starts
           OnlyOnce,       \* configuration only_once: the loop returns once every instance seen at start-up has been loaded
+          ReceiveOnly,    \* option receive-only: SendOnce captures (shadow mode) and returns before dumping / storing
           MaxForce        \* how often the forced-snapshot interval may pass (0: storage_force_snapshot_interval disabled)
 
 VARIABLES
@@ -211,7 +212,7 @@ SendInfo ==   \* send.go:139-149
     /\ UNCHANGED <<clock, lastSynced, hasDataAtStart, hasSnapshots, waitingOwn, waitingOther, ret, iter>>
 
 Store(fails) ==   \* send.go:193-234: `fails` Store calls fail first
-    /\ pc = "send.infoRead"
+    /\ pc = "send.infoRead" /\ ~ReceiveOnly
     /\ fails \in 0..RetryCount
     /\ IF fails < RetryCount
        THEN /\ bucket' = Append(bucket, [img |-> cur.img, txn |-> cur.txn])
@@ -225,6 +226,17 @@ Store(fails) ==   \* send.go:193-234: `fails` Store calls fail first
     /\ NoLMDBChange
     /\ UNCHANGED <<clock, ownOld, ownDelivered, otherOld, otherDelivered, avail, lastSynced, hasDataAtStart, hasSnapshots, waitingOwn, waitingOther, cur, ret,
                    appLast, uncaptured, sendCover, infoAtCheck, nApp, nRemote, iter, nCrash>>
+
+SendSkipStore ==   \* send.go:153-158: receive-only - return the (adjusted) transaction id, nothing is stored
+    /\ pc = "send.infoRead" /\ ReceiveOnly
+    /\ lastSynced' = cur.txn
+    /\ pc' = IF ret = "start" THEN "start.sent" ELSE "loop.sleep"
+    /\ tStore' = TRUE /\ tListing' = tListing
+    /\ tPass' = (tPass \/ (ret = "loop" /\ AllLoaded))
+    /\ cur' = NoCur
+    /\ act' = [name |-> "run", to |-> pc', lastSynced |-> lastSynced']
+    /\ NoLMDBChange /\ NoHist /\ NoEnv
+    /\ UNCHANGED <<clock, hasDataAtStart, hasSnapshots, waitingOwn, waitingOther, ret, iter>>
 
 SendCommitted ==
     /\ pc = "send.stored"
@@ -342,7 +354,7 @@ Decide ==
        /\ NoLMDBChange /\ NoHist /\ NoEnv
        /\ UNCHANGED <<clock, lastSynced, hasDataAtStart, hasSnapshots, waitingOwn, waitingOther, cur, ret, iter>>
 
-Run == \/ (Boot \/ StartSendOrSkip \/ SendReturn \/ Decide) /\ NoMC /\ NoF
+Run == \/ (Boot \/ StartSendOrSkip \/ SendReturn \/ SendSkipStore \/ Decide) /\ NoMC /\ NoF
        \/ (StartCapture \/ SendInfo \/ (\E f \in 0..RetryCount : Store(f))
            \/ Exit \/ NextUpdate \/ LoadTxn
            \/ LoadDone \/ CheckRead) /\ NoMC /\ NoT /\ NoF
@@ -456,7 +468,7 @@ LSNeverBackwards ==
 (* snapshot) every application commit recorded up to the LastTxnID it read *)
 (* at the change check is covered by a stored snapshot.                    *)
 PublishedWhenIdle ==
-    (pc = "loop.sleep" /\ ~waitingOwn) => {c \in unpub : c.txn <= infoAtCheck} = {}
+    (pc = "loop.sleep" /\ ~waitingOwn /\ ~ReceiveOnly) => {c \in unpub : c.txn <= infoAtCheck} = {}
 
 (* C10: the loop decides to upload only after an application commit since  *)
 (* the last upload, or for the first upload after start-up.                *)
@@ -491,11 +503,14 @@ Ready == tListing /\ tStore /\ tPass
 (* ready only after the newest snapshot of every instance listed at start-up - the own one included - has been merged *)
 ReadyMeansLoaded == tPass => (pc # "boot" /\ AllLoaded)
 (* an instance that started with data is ready only after it has published a snapshot in this run *)
-ReadyMeansPublished == (tStore /\ hasDataAtStart) => sentSinceStart
+ReadyMeansPublished == (tStore /\ hasDataAtStart /\ ~ReceiveOnly) => sentSinceStart
 (* readiness is never taken back while the process runs *)
 ReadyStable == [][(Ready /\ act'.name # "crash") => Ready']_vars
 (* only_once: the loop returns only when nothing is left to wait for and every commit it saw is published *)
 ExitOnlyWhenDone == pc = "exit" => (AllLoaded /\ {c \in unpub : c.txn <= infoAtCheck} = {})
+
+(* C12: a receive-only instance never stores anything *)
+ReceiveOnlyStoresNothing == ReceiveOnly => bucket = <<>>
 
 TypeOK == /\ lastTxn \in Nat /\ lastSynced \in Nat
           /\ \A k \in Keys : main[k] \in {-1} \cup Val
